@@ -77,6 +77,7 @@ var c25FixedPw = []string{
 	"secret", "Pa55word!", "x", " lead", "trail ", "in side", "p\u00e4ssw\u00f6rd", "\u5bc6\u7801", "\u00e9clair", "e\u0301clair", "MiXeD",
 	"ab\x00cd", "ab\x00ab", "\xff\xfeZ", "{braced}", "}", "{", "$2a$04$abcdefghijklmnopqrstuu", "PASSWORD", "password",
 	"\u212a", "tab\there", "new\nline", "quote'\"", "0",
+	"s3cret}", "{s3cret", "{{x}}", "}x{", "{}", "}}", "in{si}de", "$2y$", "{$2a$04$abc}",
 }
 
 // c25Password draws a true password; maxLen 72 for the bcrypt format (GenerateFromPassword refuses longer).
@@ -120,7 +121,8 @@ func c25Candidates(r *rand.Rand, u *c25User, others []*c25User) []string {
 	t := u.t
 	c := []string{"", strings.ToUpper(t), strings.ToLower(t), c25SwapCase(t), t + " ", " " + t, t + t, t + "\x00",
 		t + "\x00" + t, t + "x", u.cred, c25Sha(t), "{" + t + "}", strings.TrimSpace(t), c25Letters(r, 1+r.Intn(12)),
-		strings.ToUpper(c25Sha(t)), "\x00" + t, t + "\x00\x00"}
+		strings.ToUpper(c25Sha(t)), "\x00" + t, t + "\x00\x00",
+		strings.Trim(t, "{}"), strings.Trim(u.cred, "{}"), "{" + t, t + "}", strings.TrimPrefix(t, "{"), strings.TrimSuffix(t, "}")}
 
 	if len(t) > 0 {
 		c = append(c, t[:len(t)-1], t[1:], t+t[len(t)-1:])
